@@ -576,7 +576,8 @@ func (e *Enc) strEq(a, b string) string {
 			}
 		}
 	}
-	return fmt.Sprintf("(or (= %s %s) (str_eq %s %s))", a, b, a, b)
+	// str_eq is uninterpreted; writing both orientations makes the modelled equality symmetric
+	return fmt.Sprintf("(or (= %s %s) (str_eq %s %s) (str_eq %s %s))", a, b, a, b, b, a)
 }
 
 func (env *SpecEnv) evalCall(n *ast.CallExpr) (Val, types.Type, error) {
